@@ -1,2 +1,321 @@
--- stub: replaced by the perc engine driver
-def main : IO Unit := pure ()
+/-
+Line-protocol driver for the Percolator engine (C17, C18, C19).
+Reply format: `<model>\t<spec>`; spec patterns: `*` anything, `a|b` alternatives, `pre*` prefix.
+
+The spec column is computed from the properties' own wording, not from the handler code:
+* reads (C17): "blocked if a lock with start ts ≤ t is present, otherwise the value of the newest
+  committed put/delete with commit ts ≤ t" evaluated over the three column families (`specGet`,
+  `specScan` below share no code with `getK`/`scanLoop`);
+* C18: a commit or a prewrite naming a key that carries a rollback record of that transaction must fail;
+  `inv` counts committed records of one key with overlapping [start, commit] (must be 0);
+* C19: a ghost lock per key driven only by the request/response history (set by a successful
+  prewrite, cleared by commit/rollback/resolve/expiry of *that* transaction), the TTL rule and the
+  min-commit rule in unbounded arithmetic.
+-/
+import Driver.Lib
+import NoKVModel.Perc.Model
+
+open NoKV NoKV.Perc Driver
+
+inductive Ghost where
+  | unknown
+  | free
+  | held (start ttl minCommit : Nat)
+  deriving DecidableEq, Repr
+
+structure St where
+  c : PercCfg := PercCfg.good
+  prop : String := "all"
+  s : Store := Store.empty
+  keys : List Bytes := []          -- ascending, distinct: every key a request has named
+  ghost : List (Bytes × Ghost) := []
+
+def insKey (k : Bytes) : List Bytes → List Bytes
+  | [] => [k]
+  | x :: xs => if x = k then x :: xs else if Bytes.lt k x then k :: x :: xs else x :: insKey k xs
+
+def addKeys (st : St) (ks : List Bytes) : St :=
+  { st with keys := ks.foldl (fun acc k => if k = [] then acc else insKey k acc) st.keys }
+
+def ghostOf (st : St) (k : Bytes) : Ghost :=
+  match st.ghost.find? (fun p => p.1 = k) with
+  | some p => p.2
+  | none => .free
+
+def setGhost (st : St) (k : Bytes) (g : Ghost) : St :=
+  { st with ghost := (k, g) :: st.ghost.filter (fun p => p.1 ≠ k) }
+
+def splitList (s : String) (sep : String) : List String :=
+  if s == "-" || s == "" then [] else s.splitOn sep
+
+def kindStr : Kind → String
+  | .put => "put" | .del => "del" | .lock => "lock" | .rollback => "rollback"
+
+def lockFields (l : Lock) : String :=
+  s!"{l.ts},{l.ttl},{kindStr l.kind},{l.minCommit},{l.primary.toHex}"
+
+def abortStr : AbortWhy → String
+  | .emptyKey => "emptykey" | .badOp => "badop" | .noLock => "nolock" | .rolledBack => "rolledback"
+
+def errStr : KeyErr → String
+  | .locked k l => s!"locked({k.toHex},{lockFields l})"
+  | .conflict k p a b c => s!"conflict({k.toHex},{p.toHex},{a},{b},{c})"
+  | .abort w => s!"abort({abortStr w})"
+  | .expired k a b => s!"expired({k.toHex},{a},{b})"
+  | .retry => "retry"
+
+def optErrStr : Option KeyErr → String
+  | none => "ok"
+  | some e => "err:" ++ errStr e
+
+def readStr (k : Bytes) : ReadRes → String
+  | .notFound => "notfound"
+  | .value v => "val:" ++ v.toHex
+  | .locked l => s!"locked({k.toHex},{lockFields l})"
+
+def scanStr (o : ScanOut) : String :=
+  let kvs := o.kvs.map (fun p => p.1.toHex ++ "=" ++ p.2.toHex)
+  let e := match o.err with
+    | some (k, l) => s!"locked({k.toHex},{lockFields l})"
+    | none => "-"
+  "kvs=" ++ (if kvs.isEmpty then "-" else ",".intercalate kvs) ++ ";err=" ++ e
+
+/-! ### specification side -/
+
+def isData (k : Kind) : Bool := k == .put || k == .del
+
+/-- newest committed put/delete with commit ts ≤ t (maximum search, no order assumed) -/
+def specNewest (t : Nat) (ws : List WRec) : Option WRec :=
+  ws.foldl (fun best w =>
+    if w.ts ≤ t && isData w.kind then
+      match best with
+      | some b => if b.ts < w.ts then some w else some b
+      | none => some w
+    else best) none
+
+def specGet (ks : KS) (t : Nat) : ReadRes :=
+  let blocked : Option Lock := match ks.lock with
+    | some l => if l.ts ≤ t then some l else none
+    | none => none
+  match blocked with
+  | some l => .locked l
+  | none =>
+    match specNewest t ks.writes with
+    | none => .notFound
+    | some w =>
+      if w.kind == .del then .notFound
+      else match ks.defs.find? (fun d => d.ts = w.start) with
+        | some d => (match d.val with
+          | some v => .value v
+          | none => .notFound)
+        | none => .notFound
+
+def specScan (s : Store) (startKey : Bytes) (incl : Bool) (t : Nat) : Nat → List Bytes → ScanOut
+  | 0, _ => ⟨[], none⟩
+  | _, [] => ⟨[], none⟩
+  | room + 1, k :: rest =>
+    let inRange := startKey == [] || Bytes.lt startKey k || (incl && k == startKey)
+    if !inRange then specScan s startKey incl t (room + 1) rest
+    else match specGet (s k) t with
+      | .locked l => ⟨[], some (k, l)⟩
+      | .value v =>
+        let r := specScan s startKey incl t room rest
+        ⟨(k, v) :: r.kvs, r.err⟩
+      | .notFound => specScan s startKey incl t (room + 1) rest
+
+/-- pairs of committed (non-rollback) records of one key whose [start, commit] intervals overlap -/
+def overlapsOfKey (ws : List WRec) : Nat :=
+  let cs := ws.filter (fun w => w.kind != .rollback)
+  let rec go : List WRec → Nat
+    | [] => 0
+    | a :: rest => (rest.filter (fun b => !(a.ts < b.start || b.ts < a.start))).length + go rest
+  go cs
+
+/-! ### parsing -/
+
+def parseMut? (s : String) : Option Mut :=
+  match s.splitOn ":" with
+  | [o, k, v] => do
+    let k ← bytesOf? k
+    let v ← bytesOf? v
+    let op ← (match o with
+      | "P" => some MutOp.put | "D" => some MutOp.del | "L" => some MutOp.lock | "X" => some MutOp.other
+      | _ => none)
+    pure ⟨op, k, v⟩
+  | _ => none
+
+def parseKeys? (s : String) : Option (List Bytes) := (splitList s ",").mapM bytesOf?
+
+def setCfg (st : St) (kv : String) : Option St :=
+  match kv.splitOn "=" with
+  | [k, v] =>
+    let b (f : Bool → PercCfg) : Option St := do let x ← boolOfString? v; pure { st with c := f x }
+    let o (f : CmpOp → PercCfg) : Option St := do let x ← CmpOp.ofString? v; pure { st with c := f x }
+    match k with
+    | "prop" => some { st with prop := v }
+    | "get.skipsRollback" => b fun x => { st.c with getSkipsRollback := x }
+    | "get.skipsLock" => b fun x => { st.c with getSkipsLock := x }
+    | "scan.skipsRollback" => b fun x => { st.c with scanSkipsRollback := x }
+    | "scan.skipsLock" => b fun x => { st.c with scanSkipsLock := x }
+    | "scan.seesLockOnlyKeys" => b fun x => { st.c with scanSeesLockOnlyKeys := x }
+    | "get.lockOp" => o fun x => { st.c with getLockOp := x }
+    | "scan.lockOp" => o fun x => { st.c with scanLockOp := x }
+    | "get.tsOp" => o fun x => { st.c with getTsOp := x }
+    | "scan.verOp" => o fun x => { st.c with scanVerOp := x }
+    | "commit.checksRollback" => b fun x => { st.c with commitChecksRollback := x }
+    | "prewrite.conflictOp" => o fun x => { st.c with conflictOp := x }
+    | "rollback.checksOwner" => b fun x => { st.c with rollbackChecksOwner := x }
+    | "ttl.op" => o fun x => { st.c with ttlOp := x }
+    | "ttl.overflowGuard" => b fun x => { st.c with ttlOverflowGuard := x }
+    | "commit.minCommitOp" => o fun x => { st.c with minCommitOp := x }
+    | _ => none
+  | _ => none
+
+def wants (st : St) (p : String) : Bool := st.prop == "all" || st.prop == p
+
+/-! ### dump -/
+
+def dumpStr (st : St) : String :=
+  let ds := st.keys.flatMap fun k =>
+    ((st.s k).defs.filter (fun d => d.val.isSome)).map fun d => s!"D:{k.toHex}:{d.ts}:{(d.val.getD []).toHex}"
+  let ls := st.keys.flatMap fun k =>
+    match (st.s k).lock with
+    | some l => [s!"L:{k.toHex}:{lockFields l}"]
+    | none => []
+  let ws := st.keys.flatMap fun k =>
+    (st.s k).writes.map fun w => s!"W:{k.toHex}:{w.ts}:{w.start}:{kindStr w.kind}"
+  let all := ds ++ ls ++ ws
+  if all.isEmpty then "-" else ";".intercalate all
+
+/-! ### ghost lock (C19), driven by requests and responses only -/
+
+def errKey? : KeyErr → Option Bytes
+  | .locked k _ => some k
+  | .conflict k _ _ _ _ => some k
+  | _ => none
+
+def ghostAfterPrewrite (st : St) (h : PwHdr) (muts : List Mut) (errs : List KeyErr) : St :=
+  let failed := errs.filterMap errKey?
+  muts.foldl (fun st m =>
+    if m.key = [] || m.op = .other || failed.contains m.key then st
+    else setGhost st m.key (.held h.start h.ttl h.minCommit)) st
+
+/-- a request of transaction `start` touched `keys`; `done` = it reported success -/
+def ghostAfterEnd (st : St) (start : Nat) (keys : List Bytes) (done : Bool) (clearsFree : Bool) : St :=
+  keys.foldl (fun st k =>
+    if k = [] then st else
+    match ghostOf st k with
+    | .held s _ _ => if s = start then setGhost st k (if done then .free else .unknown) else st
+    | .unknown => if done && clearsFree then setGhost st k .free else st
+    | .free => st) st
+
+def step (st : St) (toks : List String) : St × String :=
+  match toks with
+  | "cfg" :: kvs =>
+    match kvs.foldlM setCfg st with
+    | some st' => (st', "ok")
+    | none => (st, "bad-cfg")
+  | ["pw", start, primary, ttl, minc, muts] =>
+    match natOf? start, bytesOf? primary, natOf? ttl, natOf? minc, (splitList muts ",").mapM parseMut? with
+    | some start, some primary, some ttl, some minc, some ms =>
+      let h : PwHdr := ⟨start, primary, ttl, minc⟩
+      -- C18: a key of this request carries a rollback record of this transaction ⇒ it must not be locked again
+      let rolledBack := ms.any fun m => m.key ≠ [] && m.op ≠ .other &&
+        (st.s m.key).writes.any fun w => w.start = start && w.kind == .rollback
+      let r := prewrite st.c h st.s ms
+      let st := addKeys { st with s := r.1 } (ms.map (·.key))
+      let st := ghostAfterPrewrite st h ms r.2
+      let out := if r.2.isEmpty then "ok" else "err:" ++ ";".intercalate (r.2.map errStr)
+      (st, out ++ "\t" ++ (if wants st "C18" && rolledBack then "err:*" else "*"))
+    | _, _, _, _, _ => (st, "bad-op")
+  | ["cm", start, ct, keys] =>
+    match natOf? start, natOf? ct, parseKeys? keys with
+    | some start, some ct, some ks =>
+      -- C18: a key of this request carries a rollback record of this transaction ⇒ must fail
+      let rolledBack := ks.any fun k => (st.s k).writes.any fun w => w.start = start && w.kind == .rollback
+      -- C19: the ghost lock's minimum commit timestamp is above the commit timestamp ⇒ must fail
+      let belowMin := ks.any fun k => match ghostOf st k with
+        | .held s _ m => s = start && ct < m
+        | _ => false
+      let r := commit st.c start ct st.s ks
+      let st := addKeys { st with s := r.1 } ks
+      let st := ghostAfterEnd st start ks r.2.isNone true
+      let spec := if (wants st "C18" && rolledBack) || (wants st "C19" && belowMin) then "err:*" else "*"
+      (st, optErrStr r.2 ++ "\t" ++ spec)
+    | _, _, _ => (st, "bad-op")
+  | ["rb", start, keys] =>
+    match natOf? start, parseKeys? keys with
+    | some start, some ks =>
+      let r := batchRollback st.c start st.s ks
+      let st := addKeys { st with s := r.1 } ks
+      let st := ghostAfterEnd st start ks r.2.isNone false
+      (st, optErrStr r.2 ++ "\t*")
+    | _, _ => (st, "bad-op")
+  | ["rl", start, ct, keys] =>
+    match natOf? start, natOf? ct, parseKeys? keys with
+    | some start, some ct, some ks =>
+      let r := resolveLock st.c start ct st.s ks 0
+      let st := addKeys { st with s := r.1 } ks
+      let st := ghostAfterEnd st start ks r.2.2.isNone false
+      (st, optErrStr r.2.2 ++ s!":n={r.2.1}" ++ "\t*")
+    | _, _, _ => (st, "bad-op")
+  | ["cs", primary, lockTs, cur, rbne, caller] =>
+    match bytesOf? primary, natOf? lockTs, natOf? cur, natOf? rbne, natOf? caller with
+    | some primary, some lockTs, some cur, some rbne, some caller =>
+      let q : CsReq := ⟨primary, lockTs, cur, rbne ≠ 0, caller⟩
+      let g := ghostOf st primary
+      let r := checkTxnStatus st.c q st.s
+      let st := addKeys { st with s := r.1 } [primary]
+      let resp := r.2
+      let out := s!"cs:{match resp.err with | some e => errStr e | none => "-"}:{resp.ttl}:{resp.commitVersion}:{resp.action}"
+      -- C19: the transaction may be rolled back only when ttl ≠ 0 and current ≥ start + ttl (no wrap)
+      let spec := match g with
+        | .held s ttl _ =>
+          if s = lockTs && wants st "C19" && !(ttl ≠ 0 && s + ttl ≤ cur) then s!"cs:-:{ttl}:0:0|cs:-:{ttl}:0:3" else "*"
+        | _ => "*"
+      let st := match g with
+        | .held s ttl m =>
+          if s = lockTs then
+            (if resp.action = 1 then setGhost st primary .free
+             else if resp.action = 3 then setGhost st primary (.held s ttl (Nat.max m ((caller + 1) % two64)))
+             else if resp.err.isSome then setGhost st primary .unknown
+             else st)
+          else st
+        | _ => st
+      (st, out ++ "\t" ++ spec)
+    | _, _, _, _, _ => (st, "bad-op")
+  | ["get", key, ts] =>
+    match bytesOf? key, natOf? ts with
+    | some k, some t =>
+      if k = [] then (st, "apply-error\t*") else
+      let spec := if wants st "C17" then readStr k (specGet (st.s k) t) else "*"
+      (st, readStr k (get st.c st.s k t) ++ "\t" ++ spec)
+    | _, _ => (st, "bad-op")
+  | ["scan", startKey, incl, limit, ver] =>
+    match bytesOf? startKey, natOf? incl, natOf? limit, natOf? ver with
+    | some sk, some incl, some limit, some ver =>
+      let r := scan st.c st.s st.keys sk (incl ≠ 0) limit ver
+      let spec := if wants st "C17" then
+          scanStr (specScan st.s sk (incl ≠ 0) (if ver = 0 then two64 - 1 else ver) (if limit = 0 then 1 else limit) st.keys)
+        else "*"
+      (st, scanStr r ++ "\t" ++ spec)
+    | _, _, _, _ => (st, "bad-op")
+  | ["lock", key] =>
+    match bytesOf? key with
+    | some k =>
+      let out := match (st.s k).lock with
+        | some l => s!"lock({lockFields l})"
+        | none => "none"
+      let spec := if !wants st "C19" then "*" else match ghostOf st k with
+        | .held s _ _ => s!"lock({s},*"
+        | .free => "none"
+        | .unknown => "*"
+      (st, out ++ "\t" ++ spec)
+    | none => (st, "bad-op")
+  | ["dump"] => (st, dumpStr st ++ "\t*")
+  | ["inv"] =>
+    let n := (st.keys.map fun k => overlapsOfKey (st.s k).writes).foldl (· + ·) 0
+    (st, s!"overlap={n}" ++ "\t" ++ (if wants st "C18" then "overlap=0" else "*"))
+  | _ => (st, "bad-op")
+
+def main : IO Unit := Driver.loop ({} : St) step
